@@ -110,7 +110,9 @@ class Observer:
                 "eliminate_dead_code", "remove_loop", "add_loop", "fission", "fuse",
                 "shift_loop", "unroll_loop", "divide_loop", "reorder_loops", "mult_loops", "lift_scope",
                 "lift_alloc", "sink_alloc", "delete_buffer", "delete_pass", "expand_dim", "bind_expr",
-                "divide_dim", "mult_dim", "rearrange_dim", "resize_dim", "unroll_buffer"}
+                "divide_dim", "mult_dim", "rearrange_dim", "resize_dim", "unroll_buffer",
+                "split_write", "merge_writes", "fold_into_reduce", "lift_reduce_constant", "inline_assign", "rewrite_expr",
+                "inline", "extract_subproc"}
 
     def rwcheck(self, p, att, pj, pj2, hist):
         """correspondence A: the real output is the model rewrite (lean/ExoModel/Rewrite.lean)"""
@@ -124,7 +126,9 @@ class Observer:
             flag = bool(a["guard"])
         elif op == "lift_alloc":
             k = a.get("n", 1)
-        elif op == "bind_expr":
+        elif op == "extract_subproc":
+            k = a.get("n", 1)
+        elif op in ("bind_expr", "rewrite_expr"):
             path = [st for st in path if st[0] in ("body", "orelse")]
         elif op in ("divide_dim", "resize_dim", "unroll_buffer"):
             if op == "resize_dim" and a.get("fold"):
@@ -153,7 +157,14 @@ class Observer:
         c["rwcheck"] = c.get("rwcheck", 0) + 1
         c["rwcheck:" + op] = c.get("rwcheck:" + op, 0) + 1
         if not out.get("match"):
-            self.rec["records"].append({"kind": "shape-mismatch", "key": f"rwcheck:{op}",
+            sit = None
+            try:
+                k2 = classify_mismatch(att, p, None, "scope: shape differs from the model rewrite")
+                if not k2.endswith(":semantic-mismatch"):
+                    sit = k2
+            except Exception:
+                pass
+            self.rec["records"].append({"kind": "shape-mismatch", "key": sit or f"rwcheck:{op}",
                                         "what": f"{op}: {out.get('why', out)}", "att": att, "hist": hist,
                                         "program": self.rec["name"], "src": self.src,
                                         "before": str(p), "after_json_body": None})
